@@ -155,6 +155,27 @@ func c26Inputs(c *core.Ctx) {
 			}
 			return out
 		}
+		// the next state comes from a function of the library: whatever that function can return
+		if call, ok := av.(*ssa.Call); ok && d < 8 {
+			if h := call.Call.StaticCallee(); h != nil && len(h.Blocks) > 0 {
+				var out []tr
+				for _, r := range ssax.Returns(h) {
+					if len(r.Results) == 0 {
+						continue
+					}
+					for _, t := range joint(ssax.RetVal(r, 0), vv, V, d+1) {
+						if t.same {
+							// a phi of the callee cannot be "the caller's state variable unchanged"
+							continue
+						}
+						out = append(out, t)
+					}
+				}
+				if len(out) > 0 {
+					return out
+				}
+			}
+		}
 		// the next state is computed: any
 		var out []tr
 		for _, s := range states {
